@@ -21,18 +21,24 @@ static struct S_class_2eFIX8_3a_3aFIXWriter the_w;
 static struct S_class_2eFIX8_3a_3af8_thread_cancellation_token the_tok;
 static MSG msgs[NMSG + 1];
 static struct VEC_T vecs[NBATCH + 1]; static MSG *vstore[NBATCH + 1][2];
-static int32_t fifo[QMAX]; static uint32_t q_head, q_tail;           /* message index, -1 = sentinel */
+static MSG *the_sentinel; static int32_t fifo[QMAX]; static uint32_t q_head, q_tail;           /* message index, -1 = sentinel */
 static uint32_t n_proc; static int32_t proc[QMAX]; static uint8_t deleted[NMSG + 1], proc_after_delete, batch_split;
 static uint32_t singles_done, batches_done; static uint8_t sentinel_pushed, in_batch, nested;
 static int32_t pushed[QMAX]; static uint32_t n_pushed;
-uint8_t cx_act[3 * QMAX]; uint32_t cx_nact; int32_t cx_proc[QMAX], cx_pushed[QMAX]; uint32_t cx_nproc, cx_npushed;
+uint8_t cx_null_pushed; uint8_t cx_act[3 * QMAX]; uint32_t cx_nact; int32_t cx_proc[QMAX], cx_pushed[QMAX]; uint32_t cx_nproc, cx_npushed;
 static void sched(int must);
 uint8_t st_wq_try_push(void *q, MSG *m)
 {
   if (in_batch && !nested && singles_done < NSINGLE && nondet_bool()) {     /* another producer's single write may land between the pushes of a batch */
     nested = 1; uint32_t k = singles_done++; if (cx_nact < sizeof cx_act) cx_act[cx_nact] = 4; cx_nact++; vf_pw_write(&the_w, &msgs[k]); nested = 0; }
   __CPROVER_assert(q_tail < QMAX, "abstract FIFO large enough");
-  int32_t id = m ? (int32_t)(m - msgs) : -1;
+  if (!m) cx_null_pushed = 1;
+#ifndef KF_WRITER_NULL_SENTINEL
+  /* contract of the real queue (C30): elements are non-null (uSWSR_Ptr_Buffer::push asserts it; a null element is the ring's "empty" mark) */
+  VF_ASSERT(m != 0, "C25: only non-null elements are pushed into the inter-thread queue");
+#endif
+  int32_t id = (m && m >= msgs && m <= msgs + NMSG) ? (int32_t)(m - msgs) : -1;
+  if (id < 0) the_sentinel = m;
   fifo[q_tail++] = id; if (n_pushed < QMAX) { pushed[n_pushed] = id; cx_pushed[n_pushed] = id; } n_pushed++;
   return 1;
 }
@@ -40,7 +46,7 @@ uint8_t st_wq_pop(void *q, MSG **out)
 {
   sched(q_head == q_tail);                                                /* blocking pop: waits until a producer has pushed */
   VF_ASSUME(q_head < q_tail);
-  int32_t id = fifo[q_head++]; *out = id < 0 ? (MSG*)0 : &msgs[id]; return 1;
+  int32_t id = fifo[q_head++]; *out = id < 0 ? the_sentinel : &msgs[id]; return 1;        /* (the stop sentinel: null on the unchanged tree; a pointer outside msgs[] maps to -1 as well) */
 }
 uint8_t st_send_process(void *sess, MSG *m)
 {
@@ -50,6 +56,7 @@ uint8_t st_send_process(void *sess, MSG *m)
 }
 void st_delete(void *d, MSG *m) { int32_t id = (int32_t)(m - msgs); if (id >= 0 && id <= NMSG) deleted[id]++; }
 uint8_t st_is_shutdown(void *s) { return 0; }
+uint8_t st_sess_not_loggable(void *s, uint32_t level) { return 0; }
 void st_nop1(void *p) { }
 static void sched(int must)
 {
